@@ -33,13 +33,51 @@ def snapshot(d):
     return out
 
 
-def covered(snap):
-    """What a recording of '.' with the default exclude patterns covers."""
+# (exclude patterns given to the recording calls, rule pattern that allows the excluded files in the final
+#  inspection (which records with the default patterns), a path that the patterns exclude)
+EXCLUDE_SETS = [(["docs", "*.link*"], "docs/*", "docs/junk.md"), (["*.c*", "*.link*"], "*.c*", "junk.c"),
+                (["lib/deep", "*.link*"], "lib/deep/*", "lib/deep/junk")]
+LSTRIP_SETS = [["src/"], ["lib/"], ["lib/deep/"], ["src/", "docs/"], ["lib/", "deep/"], ["deep/", "lib/"], ["docs/", "r e"],
+               ["nothing/", "src/"]]
+
+
+def gen_opts(rng):
+    """Recording options of one history (the same for all its steps, so that the chain rules line up)."""
+    opts = {"exclude": None, "lstrip": None, "base": False}
+    if rng.random() < 0.3:
+        opts["exclude"] = rng.choice(EXCLUDE_SETS)
+    if rng.random() < 0.4:
+        opts["lstrip"] = rng.choice(LSTRIP_SETS)
+    if rng.random() < 0.3:
+        opts["base"] = True
+    return opts
+
+
+def rec_name(p, lstrip):
+    """Name under which a file is recorded: the first matching prefix is stripped, once."""
+    for pre in lstrip or []:
+        if p.startswith(pre):
+            return p[len(pre):]
+    return p
+
+
+def covered(snap, opts=None):
+    """What a recording of '.' covers: default exclude patterns unless the history's options give others; names with
+    the first matching prefix stripped.  None if two files would get the same name."""
     from pathspec import GitIgnoreSpec
     import in_toto.settings as st
-    spec = GitIgnoreSpec.from_lines("gitwildmatch", st.ARTIFACT_EXCLUDE_PATTERNS)
-    return {p: {"sha256": T.sha(c)} for p, c in snap.items() if not spec.match_file(p)
-            and not any(spec.match_file(x) for x in parents(p))}
+    opts = opts or {}
+    patterns = opts["exclude"][0] if opts.get("exclude") else st.ARTIFACT_EXCLUDE_PATTERNS
+    spec = GitIgnoreSpec.from_lines("gitwildmatch", patterns)
+    out = {}
+    for p, c in snap.items():
+        if spec.match_file(p) or any(spec.match_file(x) for x in parents(p)):
+            continue
+        name = rec_name(p, opts.get("lstrip"))
+        if name in out:
+            return None
+        out[name] = {"sha256": T.sha(c)}
+    return out
 
 
 def parents(p):
@@ -78,15 +116,17 @@ def gen_ops(rng, present, n):
 TAMPERS = [None, None, "edit", "add", "delete", "rename", "rewrite", "excluded", "link_edit", "link_swap", "link_remove"]
 
 
-def apply_file_tamper(rng, work, kind):
-    snap = covered(snapshot(work))
+def apply_file_tamper(rng, work, kind, opts=None):
+    snap = covered(snapshot(work), dict(opts or {}, lstrip=None))
     files = sorted(p for p in snap if not p.startswith("alias/"))
     if kind == "add":
         with open(os.path.join(work, "injected.bin"), "w") as f:
             f.write("evil\n")
         return True
     if kind == "excluded":
-        with open(os.path.join(work, "cache.pyc"), "w") as f:
+        junk = opts["exclude"][2] if opts and opts.get("exclude") else "cache.pyc"
+        os.makedirs(os.path.dirname(os.path.join(work, junk)), exist_ok=True)
+        with open(os.path.join(work, junk), "w") as f:
             f.write("x")
         return True
     if not files:
@@ -131,36 +171,49 @@ class Honest:
         if present and rng.random() < 0.3:
             os.symlink(sorted(present)[0].split("/")[0], os.path.join(self.work, "alias"))
         cwd = os.getcwd()
-        opts = opts or {}
+        opts = self.opts = opts or {"exclude": None, "lstrip": None, "base": False}
+        kw = {}
+        if opts["exclude"]:
+            kw["exclude_patterns"] = list(opts["exclude"][0])
+        if opts["lstrip"]:
+            kw["lstrip_paths"] = list(opts["lstrip"])
+        if opts["base"]:
+            kw["base_path"] = self.work
+        file_tampers = ("edit", "add", "delete", "rename", "rewrite", "excluded")
         try:
-            os.chdir(self.work)
+            # with a base path the tools are called from another directory; the command changes into the tree itself
+            os.chdir(self.root if opts["base"] else self.work)
             for i in range(n_steps):
-                if tamper in ("edit", "add", "delete", "rename", "rewrite", "excluded") and tamper_at == i:
-                    self.tamper_applied = apply_file_tamper(rng, self.work, tamper)
-                k = rng.choice([x for x in pool if x is not self.owner])
-                dsse = rng.random() < 0.5
-                ops, present = gen_ops(rng, covered(snapshot(self.work)), rng.randrange(1, 4))
-                cmd = [sys.executable, "-B", STEPPER] + ops
+                if tamper in file_tampers and tamper_at == i:
+                    self.tamper_applied = apply_file_tamper(rng, self.work, tamper, opts)
+                gpg = W.gpg_available() and rng.random() < 0.12
+                k = W.gpg_key(rng.choice(["no_sub", "no_sub2"])) if gpg else rng.choice([x for x in pool if x is not self.owner])
+                sign_kw = {"gpg_keyid": k.gpg_id, "gpg_home": k.gpg_home} if gpg else {"signer": k.signer}
+                dsse = (not gpg) and rng.random() < 0.5
+                ops, present = gen_ops(rng, covered(snapshot(self.work), dict(opts, lstrip=None)), rng.randrange(1, 4))
+                cmd = [sys.executable, "-B", STEPPER] + (["cd:" + self.work] if opts["base"] else []) + ops
                 name = "step%d" % i
-                mode = rng.choice(["run", "run", "record"])
+                mode = rng.choice(["run", "run", "record", "run_no_command"])
+                if mode == "run_no_command":
+                    cmd = []
                 streams = rng.random() < 0.4
                 before = snapshot(self.work)
                 with contextlib.redirect_stdout(io.StringIO()), contextlib.redirect_stderr(io.StringIO()):
-                    if mode == "run":
-                        md = rl.in_toto_run(name, ["."], ["."], cmd, record_streams=streams, signer=k.signer, use_dsse=dsse,
+                    if mode != "record":
+                        md = rl.in_toto_run(name, ["."], ["."], cmd, record_streams=streams, use_dsse=dsse, **sign_kw,
                                             metadata_directory=self.links, compact_json=rng.random() < 0.3,
-                                            record_environment=rng.random() < 0.3)
+                                            record_environment=rng.random() < 0.3, **kw)
                     else:
-                        rl.in_toto_record_start(name, ["."], signer=k.signer, use_dsse=dsse)
+                        rl.in_toto_record_start(name, ["."], use_dsse=dsse, **sign_kw, **kw)
                         subprocess.run(cmd, check=True, capture_output=True)
-                        rl.in_toto_record_stop(name, ["."], signer=k.signer, metadata_directory=self.links)
+                        rl.in_toto_record_stop(name, ["."], metadata_directory=self.links, **sign_kw, **kw)
                         md = None
                 after = snapshot(self.work)
                 self.steps.append({"name": name, "key": k, "dsse": dsse, "mode": mode, "streams": streams, "cmd": cmd,
                                    "before": before, "after": after, "returned": md,
                                    "file": os.path.join(self.links, "%s.%s.link" % (name, k.keyid[:8]))})
-            if tamper in ("edit", "add", "delete", "rename", "rewrite", "excluded") and tamper_at >= n_steps:
-                self.tamper_applied = apply_file_tamper(rng, self.work, tamper)
+            if tamper in file_tampers and tamper_at >= n_steps:
+                self.tamper_applied = apply_file_tamper(rng, self.work, tamper, opts)
         finally:
             os.chdir(cwd)
         # link tampers
@@ -184,16 +237,17 @@ class Honest:
         return self
 
     def layout(self):
-        """Closed chain layout consistent with the honest run."""
+        """Closed chain layout consistent with the honest run (artifact names as the recording options produce them)."""
         steps, keys = [], {}
         prev = None
+        opts = self.opts
         for st in self.steps:
             k = st["key"]
             keys[k.keyid] = k.pub
-            prods = covered(st["after"])
+            prods = covered(st["after"], opts)
             mats = []
             if prev is not None:
-                mats += [["REQUIRE", p] for p in sorted(covered(prev["after"]))]
+                mats += [["REQUIRE", p] for p in sorted(covered(prev["after"], opts))]
                 mats += [["MATCH", "*", "WITH", "PRODUCTS", "FROM", prev["name"]]]
             else:
                 mats += [["ALLOW", "*"]]
@@ -202,8 +256,15 @@ class Honest:
             steps.append(W.step_payload(st["name"], [k.keyid], 1, mats, prules, st["cmd"]))
             prev = st
         last = self.steps[-1]
-        insp_rules = [["REQUIRE", p] for p in sorted(covered(last["after"]))] + \
-                     [["MATCH", "*", "WITH", "PRODUCTS", "FROM", last["name"]], ["DISALLOW", "*"]]
+        # the inspection records '.' in the final tree with the default patterns and without prefix stripping
+        final_plain = covered(last["after"], dict(opts, lstrip=None))
+        insp_rules = [["REQUIRE", p] for p in sorted(final_plain)]
+        for pre in opts["lstrip"] or []:
+            insp_rules.append(["MATCH", "*", "IN", pre, "WITH", "PRODUCTS", "FROM", last["name"]])
+        insp_rules.append(["MATCH", "*", "WITH", "PRODUCTS", "FROM", last["name"]])
+        if opts["exclude"]:
+            insp_rules.append(["ALLOW", opts["exclude"][1]])
+        insp_rules.append(["DISALLOW", "*"])
         self.insp_cmd = [sys.executable, "-B", STEPPER, "echo:inspect"]
         insp = [W.inspection_payload("final-check", self.insp_cmd, insp_rules, [["ALLOW", "*"]])]
         return W.layout_payload(steps, insp, keys, "2031-01-01T00:00:00Z")
@@ -215,7 +276,7 @@ class Honest:
         payload = self.layout()
         scn.layout = W.wrap(payload, self.rng.choice(["metablock", "dsse"]), [self.owner], scn.table)
         scn.keys = {self.owner.keyid: self.owner.pub}
-        pool = W.pool()
+        pool = W.pool() + [st["key"] for st in self.steps if st["key"].kind == "gpg"]
         for f in sorted(os.listdir(self.links)):
             content = json.load(open(os.path.join(self.links, f)))
             scn.files["links/" + f] = content
